@@ -50,7 +50,10 @@ PragQueries(M) == { [vehicle |-> nm, scale |-> sc, from |-> f, to |-> t,
                      nm \in {"car", "truck"}, sc \in {1, 2}, f \in 1..3, t \in 1..3 }
 PragCases == { [m |-> M, queries |-> SetToSeq(PragQueries(M))] : M \in PragSets }
 \* ---- coordinate approximation: points on a small grid (lat, lng in units the harness scales)
-Points == { << <<0, 0>>, <<1, 2>>, <<3, 1>> >>, << <<0, 0>>, <<0, 0>>, <<5, 5>>, <<2, 7>> >>, << <<1, 1>> >> }
+\* a point is <<a, b, m>>: grid cell (a, b) plus m steps of two hundred-thousandths of a degree (a few metres): different points, however close,
+\* are different locations; equal points are one location
+PointPalette == { <<0, 0, 0>>, <<0, 0, 1>>, <<0, 0, 2>>, <<1, 2, 0>>, <<3, 1, 0>>, <<3, 1, 1>>, <<5, 5, 0>> }
+Points == UNION { [1..k -> PointPalette] : k \in 1..3 } \cup { << <<0, 0, 0>>, <<0, 0, 0>>, <<5, 5, 0>>, <<2, 7, 0>>, <<0, 0, 1>> >> }
 ASSUME ndJsonSerialize(IOEnv.OUTFILE, SetToSeq(Cases))
 ASSUME ndJsonSerialize(IOEnv.OUTPRAG, SetToSeq(PragCases))
 ASSUME ndJsonSerialize(IOEnv.OUTAPPROX, SetToSeq({ [points |-> p] : p \in Points }))
